@@ -274,7 +274,14 @@ func skeletonGroup(repo, ns, doc string, fns []iterFn, extra func(files map[stri
 			}
 			sb.WriteString("\n")
 		}
-		sb.WriteString("]\n\n")
+		sb.WriteString("]\n")
+		// FNV-1a (64 bit) of the skeleton, for ties that pin long functions cheaply
+		h := uint64(14695981039346656037)
+		for _, c := range []byte(strings.Join(sk, "\n")) {
+			h ^= uint64(c)
+			h *= 1099511628211
+		}
+		sb.WriteString(fmt.Sprintf("def %sHash : Nat := %d\n\n", fn.lean, h))
 		summary[fn.lean] = len(sk)
 	}
 	if extra != nil {
